@@ -39,7 +39,9 @@ class RefObs:
             m = math.fsum(float(v) for v in x) / len(x)
             rv[n] = m
             d[n] = {int(c): float(v) - m for c, v in zip(il, x)}
-        return RefObs(val, d, rv, vmag=max(abs(float(v)) for x in samples for v in x))
+        # tolerances scale with the magnitude of the raw samples, not with the size of the fluctuations
+        mag = {n: max(abs(float(v)) for v in x) for x, n in zip(samples, names)}
+        return RefObs(val, d, rv, mag=mag, vmag=max(abs(float(v)) for x in samples for v in x))
 
     @staticmethod
     def from_cov(cv):
